@@ -590,11 +590,19 @@ def compare_pid(item, impl, model, d, broke, histories, n_req=0, key='final'):
     rings, the final list as the sorted list of canonical rings (so a rewrite that only reorders is not an alarm; the
     exact sequences are compared too, but only counted)."""
     tag, ints, fields, rings, err, adj = item
+    if n_req and impl.get('exc') in ('TypeError', 'AttributeError', 'NameError') and err is None and rings is not None:
+        return
     if n_req:   # _rings_filter asked for n_req rings: only the final list is a new comparison
         mf, jf = _canon_final(model.get('final', '')), _canon_final(impl[key])
         d['pid-other-n_sssr:' + (model.get('final', '').split(' ')[0])] += 1
         if mf != jf:
             broke('correspondence', 'pid-rings-filter', f'{tag}: _rings_filter(…, {n_req}) model {model.get("final")!r} impl(sorted sets) {impl[key]!r} wire={ints}', ints)
+        return
+    if impl.get('exc') in ('TypeError', 'AttributeError', 'NameError') and err is None and rings is not None:
+        # the private stages could not be called the way this stream calls them (signature / helper renamed by a refactoring)
+        # while the public mol.sssr works on the same molecule: recorded, this private stream is skipped (DESIGN §10);
+        # mol.sssr itself stays certified by the relational checkers
+        d['pid-stage-interface-changed (' + impl['exc'] + '): skipped'] += 1
         return
     d['pid-compared'] += 1
     if '_' in model:
@@ -670,7 +678,7 @@ def evaluate(cases, build_ok=True):
     pid_req = []   # (item index, n_sssr or 0 for Rings.sssr itself, key of the implementation's answer)
     for i in pid_idx:
         pid_req.append((i, 0, 'final'))
-        pid_req += [(i, int(k[5:]), k) for k in pid_impl[i] if k.startswith('final') and k != 'final']
+        pid_req += [(i, int(k[5:]), k) for k in pid_impl[i] if k.startswith('final') and k != 'final' and k[5:].isdigit()]
     pid_lines = [f'pid {n} ' + ' '.join(str(x) for x in items[i][1]) for i, n, _ in pid_req]
     resp = core.run_driver('C06', lines + pid_lines)
     if len(resp) != len(lines) + len(pid_lines):
